@@ -614,6 +614,9 @@ package engine
 //@   ensures[handled-top] result == nil ==> (*s)[len(*s) - 1] != nil
 //@   ensures[handled-prefix] result == nil ==> forall j int :: 0 <= j && j < len(*s) - 1 ==> (*s)[j] == old((*s)[j])
 //@   at-call append requires[the-recovery-takes-the-place-of-the-frame-whose-handler-accepted-everything-below-stays] a0 == *s && len(a1) == 1
+//@   bind frame = (*promiseStack).pop#1
+//@   at-call dynamic requires[the-handler-of-the-frame-just-popped-innermost-first] called(frame) && fn == frame.recover
+//@   at-call append requires[what-is-pushed-is-the-promise-the-handler-returned] a1[0] == local(q, *Promise) && a1[0] != nil
 
 //@ func cut
 //@   property C03
@@ -673,6 +676,11 @@ package engine
 //@   ensures[error-origin] err != nil && called(rerr) ==> err == rerr
 //@   ensures[an-unhandled-error-is-returned] called(rerr) && rerr != nil ==> !ok && err == rerr
 //@   ensures[a-cancelled-run-reports-the-context-s-error] called(cerr) ==> !ok && err == cerr
+//@   ensures[true-is-the-answer-of-a-finished-promise-that-succeeded-without-error] ok ==> called(popped) && len(popped.delayed) == 0 && popped.err == nil && popped.ok
+//@   ensures[a-handled-error-does-not-end-the-run-the-recovery-runs-next] !(called(rerr) && rerr == nil)
+//@   ensures[fails-without-error-only-when-no-choice-point-is-left] !ok && err == nil && !called(cerr) ==> len(stack) == 0
+//@   loop 1 maintains[the-error-of-a-finished-promise-is-handed-to-the-handlers-whatever-is-left-on-the-stack] called(popped) && !called(next) && !called(rerr) ==> popped.err == nil
+//@   loop 1 maintains[a-finished-promise-that-succeeded-ends-the-run] called(popped) && !called(next) && !called(rerr) ==> !popped.ok
 
 //@ ---------------------------------------------------------------- catch/3, throw/1, call/N (C03, C04)
 
@@ -691,9 +699,24 @@ package engine
 //@   ensures result == resolve(e, t)
 //@   ensures t != nil ==> result != nil
 
+//@ func Error
+//@   property C04
+//@   modifies nothing
+//@   ensures[fresh] result != nil && fresh(result)
+//@   ensures[a-finished-promise-that-carries-exactly-the-error] result.err == err && len(result.delayed) == 0 && !result.ok && result.cutParent == nil && !result.repeat && result.recover == nil
+
+//@ func catch
+//@   property C04
+//@   modifies nothing
+//@   ensures[fresh] result != nil && fresh(result)
+//@   ensures[the-handler-is-installed-on-the-promise] result.recover == recover
+//@   ensures[one-alternative-the-protected-goal] len(result.delayed) == 1 && result.delayed[0] == k && !result.repeat && result.cutParent == nil && result.err == nil
+
 //@ func Catch
 //@   property C04
 //@   frozen env, catcher, recover, k, vm, goal
+//@   at-call catch requires[a-handler-and-a-goal] a0 != nil && a1 != nil
+//@   ensures[the-goal-runs-under-a-promise-that-carries-the-handler] result != nil && result.recover != nil && len(result.delayed) == 1 && result.delayed[0] != nil && result.err == nil
 
 //@ func Catch$1
 //@   property C04
@@ -701,6 +724,7 @@ package engine
 //@   bind uenv, uok = (*Env).Unify#1
 //@   bind r = Call#1
 //@   at-call (*Env).Unify requires[call-time-env] a0 == env && a1 == catcher
+//@   at-call (*Env).Unify requires[the-catcher-is-unified-with-the-ball-the-exception-carries] param(0) is Exception ==> a2 == (param(0) as Exception).term
 //@   at-call Call requires[recovery-in-its-place] uok && a0 == vm && a1 == recover && a2 == k && a3 == uenv
 //@   ensures[declines-when-no-unify] !uok ==> result == nil
 //@   ensures[recovers-when-unifies] uok ==> called(r) && result == r
@@ -716,7 +740,9 @@ package engine
 //@   bind b = (*Env).Resolve#1
 //@   at-call (*Env).Resolve requires[the-ball] a1 == ball
 //@   at-call NewException requires[copy-of-ball] a0 == b && !(b is Variable)
+//@   at-call NewException requires[the-copy-keeps-the-bindings-the-ball-has-when-it-is-thrown] a1 == param(3)
 //@   at-call InstantiationError requires[only-for-variable] b is Variable
+//@   ensures[throw-never-succeeds-it-ends-in-an-error-that-carries-a-term] result != nil && len(result.delayed) == 0 && result.err != nil && result.err is Exception
 
 //@ spec abstract simplified(e *Env, t Term) Term
 
@@ -729,11 +755,25 @@ package engine
 //@   trusted
 //@   modifies nothing
 
+//@ -- the alternatives of a clause body: a disjunction is split into its branches (each becomes a clause sharing the
+//@ -- cut parent, so a cut in a top-level disjunct is a clause-level cut), but (C -> T ; E) is one alternative: the
+//@ -- if-then-else is left to the library predicate, whose cut is local to the condition (C03)
+//@ spec fun isDisjunction(t Term) bool = t is Compound && Compound.Functor(t as Compound) == atomSemiColon && Compound.Arity(t as Compound) == 2
+//@ spec fun isIfThen(t Term) bool = t is Compound && Compound.Functor(t as Compound) == atomThen && Compound.Arity(t as Compound) == 2
+
 //@ func (*altIterator).Next
 //@   property C03 C10
-//@   trusted
+//@   requires i != nil
 //@   modifies *i
 //@   resolves-before-inspecting
+//@   let a = resolve(i.Env, i.Alt)
+//@   let e = i.Env
+//@   ensures[nothing-left] a == nil ==> !result
+//@   ensures[a-goal-that-is-not-a-disjunction-is-the-last-alternative] a != nil && !isDisjunction(a) ==> result && i.current == a && i.Alt == nil
+//@   ensures[an-if-then-else-is-one-alternative-not-two] isDisjunction(a) && isIfThen(resolve(e, Compound.Arg(a as Compound, 0))) ==> result && i.current == a && i.Alt == nil
+//@   ensures[a-disjunction-gives-its-left-branch-now-and-its-right-branch-next] isDisjunction(a) && !isIfThen(resolve(e, Compound.Arg(a as Compound, 0))) ==>
+//@       result && i.current == Compound.Arg(a as Compound, 0) && i.Alt == Compound.Arg(a as Compound, 1)
+//@   ensures[alternatives-are-read-in-the-same-environment-throughout] i.Env == e
 //@ func (*altIterator).Current
 //@   trusted
 //@   modifies nothing
@@ -759,6 +799,11 @@ package engine
 //@   ensures[a-promise] promise != nil
 //@   bind cs, cerr = compile#1
 //@   at-call clauses.call requires[one-off-procedure-compiled-from-the-goal] cerr == nil && a0 == cs && a1 == vm && a3 == k && a4 == env
+//@   bind hargs, herr = makeSlice#1
+//@   at-call clauses.call requires[called-with-the-arguments-its-head-was-built-from] a2 == hargs
+//@   let g = resolve(env, goal)
+//@   at-call compile requires[the-one-off-clause-has-the-called-goal-as-its-body-and-is-read-in-the-call-s-environment] a1 == env && a0 is *compound &&
+//@       (a0 as *compound).functor == atomIf && len((a0 as *compound).args) == 2 && (a0 as *compound).args[1] == g
 
 //@ func CallNth$1
 //@   property C03
@@ -891,6 +936,15 @@ package engine
 
 //@ spec fun tableSame(vm *VM) bool = true
 
+//@ -- the ISO permission cases of validateOp, over the table as it was when op/3 was entered
+//@ spec fun defInAtEntry(vm *VM, name Atom, c int) bool = !emptyOp(old(vm.operators[name][c]))
+//@ spec abstract anyName(vm *VM) int
+//@ spec fun refusedAtEntry(vm *VM, p Integer, spec operatorSpecifier, name Atom) bool =
+//@       (name == atomComma && defInAtEntry(vm, name, 2)) ||
+//@       (name == atomBar && (cls(spec) != 2 || (p > 0 && p < 1001))) ||
+//@       name == atomEmptyBlock || name == atomEmptyList ||
+//@       (cls(spec) == 2 && defInAtEntry(vm, name, 1)) || (cls(spec) == 1 && defInAtEntry(vm, name, 2))
+
 //@ func Op
 //@   property C18
 //@   requires vm != nil
@@ -911,6 +965,39 @@ package engine
 //@           isOp(vm.operators[local(names, []Atom)[len(local(names, []Atom)) - 1]][cls(local(spec, operatorSpecifier))], local(p, Integer), local(spec, operatorSpecifier), local(names, []Atom)[len(local(names, []Atom)) - 1]),
 //@           emptyOp(vm.operators[local(names, []Atom)[len(local(names, []Atom)) - 1]][cls(local(spec, operatorSpecifier))]))
 //@   onk[other-classes-untouched] forall n Atom, c operatorClass :: c != cls(local(spec, operatorSpecifier)) ==> vm.operators[n][c] == old(vm.operators[n][c])
+//@   -- the entry that is validated and defined is the requested one: the priority is the (dereferenced) first argument, an integer
+//@   -- in 0..1200; the specifier is the one the specifier table gives for the (dereferenced) second argument
+//@   let rp = resolve(env, priority)
+//@   let rs = resolve(env, specifier)
+//@   let ro = resolve(env, op)
+//@   onk[priority-is-an-integer-in-range] rp is Integer && 0 <= (rp as Integer) && (rp as Integer) <= 1200
+//@   onk[specifier-is-in-the-specifier-table] rs is Atom && has(operatorSpecifiers, rs as Atom)
+//@   at-call validateOp requires[validates-the-requested-entry] a0 == vm && a1 == (rp as Integer) && a2 == operatorSpecifiers[rs as Atom]
+//@   at-call (*operators).define requires[defines-the-requested-entry] a1 == (rp as Integer) && a2 == operatorSpecifiers[rs as Atom]
+//@   at-call domainError requires[priority-domain-error-only-when-out-of-range] a0 == validDomainOperatorPriority ==>
+//@       rp is Integer && a1 == rp && ((rp as Integer) < 0 || (rp as Integer) > 1200)
+//@   at-call domainError requires[specifier-domain-error-only-when-not-in-the-specifier-table] a0 == validDomainOperatorSpecifier ==>
+//@       rs is Atom && a1 == rs && !has(operatorSpecifiers, rs as Atom)
+//@   at-call InstantiationError requires[instantiation-error-only-for-an-unbound-priority-or-specifier] rp is Variable || rs is Variable
+//@   at-call (*operators).define requires[defined-priority-is-in-range] 0 <= a1 && a1 <= 1200
+//@   -- a list of names: every element passed over is an atom and is added to the names collected so far; the list must end properly
+//@   bind cur = (*ListIterator).Current#1
+//@   bind ierr = (*ListIterator).Err#1
+//@   loop 1 maintains[only-atoms-are-passed-over] called(cur) && resolve(env, cur) is Atom
+//@   bind acc = appendUniqNewAtom#1
+//@   -- (in a `maintains` clause the loop-carried variable `names` is its value at the start of the iteration)
+//@   loop 1 maintains[each-element-is-added-to-the-names-collected-so-far] called(acc) && argof(acc, 0) == local(names, []Atom) && argof(acc, 1) == (resolve(env, cur) as Atom)
+//@   -- every name is validated (against the table as it was on entry) before the first one is defined. anyName(vm) is an arbitrary
+//@   -- index, the same throughout: what is proved about names[anyName(vm)] is proved about every name of the list (a quantifier over
+//@   -- the indices proves as fast, but then the solvers no longer find counterexamples for any failing clause of Op)
+//@   loop 2 invariant[index-range] -1 <= $i && $i < len(local(names, []Atom))
+//@   loop 2 invariant[names-so-far-are-permitted] 0 <= anyName(vm) && anyName(vm) <= $i ==>
+//@       !refusedAtEntry(vm, rp as Integer, operatorSpecifiers[rs as Atom], local(names, []Atom)[anyName(vm)])
+//@   loop 3 invariant[every-name-was-permitted] 0 <= anyName(vm) && anyName(vm) < len(local(names, []Atom)) ==>
+//@       !refusedAtEntry(vm, rp as Integer, operatorSpecifiers[rs as Atom], local(names, []Atom)[anyName(vm)])
+//@   onk[every-name-was-permitted] 0 <= anyName(vm) && anyName(vm) < len(local(names, []Atom)) ==>
+//@       !refusedAtEntry(vm, rp as Integer, operatorSpecifiers[rs as Atom], local(names, []Atom)[anyName(vm)])
+//@   onk[a-partial-or-improper-list-is-refused] !(ro is Atom) ==> called(ierr) && ierr == nil
 
 //@ ---------------------------------------------------------------- streams (C19)
 
@@ -1619,6 +1706,9 @@ package engine
 //@   property C03
 //@   nosafety
 //@   ensures[a-promise] result != nil
+//@   ensures[the-promise-returned-is-the-one-its-clauses-cut-to] result == p
+//@   loop 1 maintains[the-i-th-alternative-runs-the-i-th-clause] c == cs[i]
+//@   at-call Delay requires[one-alternative-per-clause-of-the-predicate] a0 == ks && len(a0) == len(cs)
 
 //@ ---------------------------------------------------------------- loading a text (C20)
 
@@ -1858,7 +1948,7 @@ package engine
 //@   calls k atmost 1
 //@   unify-result-checked
 //@ func (*VM).exec
-//@   property C02
+//@   property C02 C03
 //@   nosafety
 //@   trusted-frame
 //@   unify-result-checked
@@ -1870,6 +1960,28 @@ package engine
 //@   never-calls (*Env).bind
 //@   never-calls (*Env).lookup
 //@   never-calls (*Env).insert
+//@   frozen cutParent, cont, vars, vm
+//@   at-call cut requires[a-cut-discards-down-to-the-promise-of-the-predicate-call-the-clause-belongs-to] a0 == local(cutParent, *Promise)
+
+//@ -- C03 on exec: the cut parent a clause body was started with is never reassigned (frozen: in exec or its closures)
+//@ -- and it is that variable a cut is made with (the loop of exec havocs the captured cell, so the pin is stated on the
+//@ -- variable, not on param(7)); the two closures below pass it on unchanged.
+//@ -- the goals to the right of a call / of a cut run as the rest of the same clause body: same clause-level cut parent
+//@ -- (a later cut of the body still cuts to the predicate's promise), same code position, clause variables and
+//@ -- continuation (C03: "then execution continues with the goals to its right")
+//@ func (*VM).exec$1
+//@   property C03
+//@   nosafety
+//@   at-call (*VM).exec requires[the-rest-of-the-body-keeps-the-clause-s-cut-parent] a7 == cutParent
+//@   at-call (*VM).exec requires[the-rest-of-the-body-is-the-same-clause-s-code-variables-and-continuation] a0 == vm && a1 == pc && a2 == vars && a3 == cont
+//@   at-call (*VM).exec requires[after-a-called-goal-the-body-goes-on-in-the-environment-the-goal-left-with-empty-argument-registers] a6 == param(0) && len(a4) == 0 && len(a5) == 0
+
+//@ func (*VM).exec$2
+//@   property C03
+//@   nosafety
+//@   at-call (*VM).exec requires[the-rest-of-the-body-keeps-the-clause-s-cut-parent] a7 == cutParent
+//@   at-call (*VM).exec requires[the-rest-of-the-body-is-the-same-clause-s-code-variables-and-continuation] a0 == vm && a1 == pc && a2 == vars && a3 == cont
+//@   at-call (*VM).exec requires[a-cut-binds-nothing-execution-goes-on-to-its-right-in-the-same-environment-and-registers] a4 == args && a5 == astack && a6 == env
 
 //@ spec fun keyOf(v int) int = wrap64(ite(tdiv(v, 2) != 0, 0 - v, v))
 //@ func newEnvKey
